@@ -29,7 +29,9 @@ class MainModel:
         self.mats = self._assigned_from("LBFGSB_MATRICES")
         # result constructions
         self.results: List[ast.Call] = [c for c in walk_no_nested(fn)
-                                        if isinstance(c, ast.Call) and dotted(c.func) == "OptimizeResult"]
+                                        if isinstance(c, ast.Call) and dotted(c.func) == "OptimizeResult"
+                                        # OptimizeResult(<mapping>) alone is the copy constructor (a dict copy), not a result being built
+                                        and not (len(c.args) == 1 and not c.keywords)]
         need(len(self.results) >= 3, f"{ENTRY}: fewer than 3 OptimizeResult constructions")
         self.returns: List[ast.Return] = [s for s in walk_no_nested(fn) if isinstance(s, ast.Return)]
         need(len(self.returns) >= 2, f"{ENTRY}: fewer than 2 return statements")
